@@ -124,6 +124,10 @@ def gen_exportable(rng):
         for m in meas:
             if not any(p["name"] == "k_bkg" for p in m["config"]["parameters"]):
                 m["config"]["parameters"].append({"name": "k_bkg", "inits": [1.0], "bounds": [[0, 10]]})
+    # later measurements may be about another parameter of interest (the background normalisation)
+    for m in meas[1:]:
+        if "k_bkg" in declared and rng.random() < 0.5 and not any(p["name"] == "k_bkg" and p.get("fixed") for p in m["config"]["parameters"]):
+            m["config"]["poi"] = "k_bkg"
     rng.shuffle(obs)
     return {"channels": channels, "observations": obs, "measurements": meas, "version": "1.0.0"}
 
